@@ -7,7 +7,10 @@ package main
 // edited tree is skipped; one that applies but does not behave as expected is a checker failure.
 
 import (
+	"crypto/sha256"
+	"encoding/hex"
 	"fmt"
+	"io/fs"
 	"os"
 	"os/exec"
 	"path/filepath"
@@ -25,7 +28,78 @@ type controlResult struct {
 	firstMsg string
 }
 
+// treeDigest hashes the non-test Go sources, go.mod and go.work files of the tree (vendor, .git and
+// build output excluded): the identity of the tree the controls were validated on.
+func treeDigest(repo string) string {
+	h := sha256.New()
+	var files []string
+	_ = filepath.WalkDir(repo, func(p string, d fs.DirEntry, err error) error {
+		if err != nil {
+			return nil
+		}
+		if d.IsDir() {
+			switch d.Name() {
+			case ".git", "vendor", "bin", "_out", "node_modules":
+				return filepath.SkipDir
+			}
+			return nil
+		}
+		n := d.Name()
+		if (strings.HasSuffix(n, ".go") && !strings.HasSuffix(n, "_test.go")) || n == "go.mod" || n == "go.work" {
+			files = append(files, p)
+		}
+		return nil
+	})
+	sort.Strings(files)
+	for _, f := range files {
+		rel, _ := filepath.Rel(repo, f)
+		b, err := os.ReadFile(f)
+		if err != nil {
+			continue
+		}
+		fmt.Fprintf(h, "%s\x00%d\x00", rel, len(b))
+		h.Write(b)
+	}
+	return hex.EncodeToString(h.Sum(nil))
+}
+
+// failingNow: the rules already report a violation that is not a listed known finding.
+func failingNow(r *Run) bool {
+	known, _ := loadKnown(r.Root)
+	isKnown := map[string]bool{}
+	for _, k := range known {
+		if k.Property == r.Property && k.Status == "known" {
+			isKnown[k.Key] = true
+		}
+	}
+	if len(r.fatal) > 0 {
+		return true
+	}
+	for _, o := range r.Obs {
+		if !o.OK && !isKnown[o.Key] {
+			return true
+		}
+	}
+	return false
+}
+
 func runControls(r *Run, def *propertyDef, repo string) {
+	// The controls test the checker, not the tree. They were validated on the reference tree whose
+	// digest is committed in controls/REFERENCE.sha256. On that tree a control that misbehaves fails
+	// the check (checker self-test). On any other tree a control may legitimately apply and yet mean
+	// something else, so a deviation is recorded in the evidence ("control drift") and printed, but
+	// is no verdict about the property; and when the tree's own rules already report a violation the
+	// controls are skipped (every negative control would trivially repeat it).
+	if failingNow(r) {
+		r.extra["controls_summary"] = "skipped: the rules already report a violation on this tree"
+		fmt.Printf("  controls: %s\n", r.extra["controls_summary"])
+		return
+	}
+	digest := treeDigest(repo)
+	refBytes, _ := os.ReadFile(filepath.Join(r.Root, "controls", "REFERENCE.sha256"))
+	onReference := strings.TrimSpace(string(refBytes)) == digest
+	r.extra["controls_tree_digest"] = digest
+	r.extra["controls_on_reference_tree"] = onReference
 	self, err := os.Executable()
 	if err != nil {
 		r.Fatal("controls: cannot locate own executable: %v", err)
@@ -138,6 +212,7 @@ func runControls(r *Run, def *propertyDef, repo string) {
 	wg.Wait()
 	nFired, nSilent, nSkipped := 0, 0, 0
 	nCaught, nMissed := 0, 0
+	var drift []string
 	for _, res := range results {
 		switch {
 		case res.Kind == "seeded":
@@ -153,7 +228,17 @@ func runControls(r *Run, def *propertyDef, repo string) {
 		case strings.HasPrefix(res.Outcome, "skipped"):
 			nSkipped++
 		default:
-			r.Fatal("control %s (%s): %s", res.Name, res.Kind, res.Outcome)
+			if onReference {
+				r.Fatal("control %s (%s): %s", res.Name, res.Kind, res.Outcome)
+			} else {
+				drift = append(drift, fmt.Sprintf("control %s (%s): %s", res.Name, res.Kind, res.Outcome))
+			}
+		}
+	}
+	if len(drift) > 0 {
+		r.extra["control_drift"] = drift
+		for _, d := range drift {
+			fmt.Printf("  control drift (tree differs from the controls' reference tree; not a verdict): %s\n", d)
 		}
 	}
 	r.extra["controls"] = results
